@@ -151,6 +151,7 @@ fn judge2(case: &Case, outs: &[OpOut], mode: &str) -> (Vec<(String, String)>, Ve
                             let changed = prev.iter().any(|(d, old)| sc.value(*d).unwrap() != *old);
                             let aba = kind == Kind::Projection && prev.iter().any(|(d, _)| changed_exec_this_epoch.contains(d));
                             if !changed && aba { fails.push(("C03:unjustified-bp-aba".into(), format!("op {i}: projection {} re-ran by backward projection although its previous reads {:?} have their old values again (a dependency changed and changed back unobserved)", e.key, prev))); }
+                            else if !changed && kind == Kind::Projection { fails.push(("C03:unjustified-bp".into(), format!("op {i}: projection {} re-ran (backward projection) although none of its previous reads {:?} changed", e.key, prev))); }
                             else if !changed { fails.push(("C03:unjustified".into(), format!("op {i}: executor {} re-ran although none of its previous reads {:?} changed", e.key, prev))); }
                         }
                         if !exec_this_epoch.insert(e.key) { fails.push(("C03:twice-per-epoch".into(), format!("op {i}: executor {} ran twice between two sessions", e.key))); }
@@ -230,6 +231,7 @@ fn main() {
         for i in 0..n_cases {
             let cfg = GenCfg { max_keys: if i % 4 == 0 { 6 } else { 12 }, max_ops: 10, firewalls: mode != "core" , externals: mode != "cyclic" && i % 3 == 0, unordered: mode == "acyclic" && i % 5 == 0, cycles: mode == "cyclic" };
             if mode == "acyclic" && i % 6 == 5 { cases.push(gen_layered(&mut rng)); continue; }
+            if mode == "acyclic" && i % 12 == 4 { cases.push(gen_pjswitch(&mut rng)); continue; }
             let p = gen_program(&mut rng, &cfg);
             let ops = gen_history(&mut rng, &p, &cfg);
             cases.push(Case { program: p, ops });
